@@ -50,19 +50,29 @@ def textx_isinstance(obj: Any, obj_cls: type[Any]) -> bool:
     """
     if obj_cls.__name__ == "OBJECT":
         return True
-    if isinstance(obj, obj_cls):
-        return True
-    if (
-        hasattr(obj_cls, "_tx_fqn")
-        and hasattr(obj, "_tx_fqn")
-        and obj_cls._tx_fqn == obj._tx_fqn
-    ):
-        return True
-    if hasattr(obj_cls, "_tx_inh_by"):
-        for cls in obj_cls._tx_inh_by:
-            if textx_isinstance(obj, cls):
-                return True
-    return False
+    # Abstract rules may reference each other in cycles
+    # (e.g. `Value: Leaf | '(' Value ')';`), visit each class once.
+    visited = set()
+
+    def _isinstance(cls):
+        if id(cls) in visited:
+            return False
+        visited.add(id(cls))
+        if isinstance(obj, cls):
+            return True
+        if (
+            hasattr(cls, "_tx_fqn")
+            and hasattr(obj, "_tx_fqn")
+            and cls._tx_fqn == obj._tx_fqn
+        ):
+            return True
+        if hasattr(cls, "_tx_inh_by"):
+            for inh_cls in cls._tx_inh_by:
+                if inh_cls.__name__ == "OBJECT" or _isinstance(inh_cls):
+                    return True
+        return False
+
+    return _isinstance(obj_cls)
 
 
 def get_model(obj: T) -> Any:
